@@ -2,9 +2,9 @@ package props
 
 import (
 	"fmt"
-	"os"
 	"go/constant"
 	"go/token"
+	"os"
 	"sort"
 	"strings"
 
@@ -487,7 +487,11 @@ func c01OpClass(r *core.Run, p *core.Program, ev *ssa.Function) {
 		return
 	}
 	cells, bad := 0, 0
-	type diff struct{ k, sv int; exec bool; got, want string }
+	type diff struct {
+		k, sv     int
+		exec      bool
+		got, want string
+	}
 	var diffs []diff
 	for _, sv := range []int{svBase, svV0, svTap} {
 		for _, exec := range []bool{true, false} {
@@ -537,4 +541,3 @@ func c01OpClass(r *core.Run, p *core.Program, ev *ssa.Function) {
 		r.Fail(rule, "op-success-list", "-", "OP_SUCCESS predicate not found")
 	}
 }
-
